@@ -9,7 +9,8 @@
    unescaped length, not strlen) and fixes/jtext-bigint.diff (an integer text beyond int64 is read as a double).
 
    Doubles are not interpreted: number -> double (iwstrtod) and double -> text (iwjson_ftoa) are ORACLE
-   parameters `ora`/`fo` supplied by the harness; a double is the Z of its 64 bits. *)
+   parameters `ora`/`fo` supplied by the harness; a double is the Z of its 64 bits.  Only the value comes from the
+   oracle: where a number ends (the `end` pointer of iwstrtod) is computed by `strtod_end` below. *)
 Require Import ZArith List Bool.
 Require Import IW.Lib.CInt IW.Gen.Facts IW.UT.Conv IW.JSON.Val IW.JSON.Utf8.
 Import ListNotations.
@@ -189,8 +190,38 @@ Fixpoint starts (pat p : list Z) : bool :=                 (* !strncmp(p, pat, s
   | _ :: _, [] => false
   end.
 
+(* ---------------------------------------------------------------- iwstrtod(str, &end): the scanner (src/utils/iwconv.c)
+   Only the VALUE of the double is an oracle input; which bytes belong to the number is decided here, by the same
+   loops as in C: white space, sign, integer digits, '.', fraction digits, [eE], sign, exponent digits (leading
+   zeros skipped while another digit follows).  Result: end - str (0: nothing converted, end == str). *)
+Definition is_dig (c : Z) : bool := (48 <=? c) && (c <=? 57).            (* iwchars_is_digit *)
+Fixpoint skip_digits (p : list Z) (k : nat) : list Z * nat :=            (* while ( *p && iwchars_is_digit( *p)) ++p *)
+  match p with c :: r => if is_dig c then skip_digits r (S k) else (p, k) | [] => ([], k) end.
+Fixpoint skip_exp_zeros (p : list Z) (k : nat) : list Z * nat :=         (* while ( *p == '0' && iwchars_is_digit(p[1])) ++p *)
+  match p with c :: r => if (c =? 48) && is_dig (hd0 r) then skip_exp_zeros r (S k) else (p, k) | [] => ([], k) end.
+
+Definition strtod_end (str : list Z) : nat :=
+  let '(p0, k0) := skip_space str 0 in                                   (* skipwhite: iwchars_is_space == is_space *)
+  let '(p1, k1) := if (hd0 p0 =? 45) || (hd0 p0 =? 43) then (tl p0, S k0) else (p0, k0) in
+  if negb (is_dig (hd0 p1)) && negb (hd0 p1 =? 46) then O else           (* goto done with a == str *)
+  let '(p2, k2) := skip_digits p1 k1 in                                  (* decimal part; a = p *)
+  (* fraction part; md: the byte before p is a digit (false only after a '.' without fraction digits) *)
+  let '(p3, k3, md) :=
+    if hd0 p2 =? 46 then let '(q, k) := skip_digits (tl p2) (S k2) in (q, k, is_dig (hd0 (tl p2)))
+    else (p2, k2, true) in
+  if (hd0 p3 =? 69) || (hd0 p3 =? 101) then                              (* exponential part *)
+    let p4 := tl p3 in
+    let '(p5, k5) := if (hd0 p4 =? 45) || (hd0 p4 =? 43) then (tl p4, S (S k3)) else (p4, S k3) in
+    if is_dig (hd0 p5) then
+      let '(p6, k6) := skip_exp_zeros p5 k5 in
+      snd (skip_digits (tl p6) (S k6))                                   (* e = *p++ - '0'; while digits; a = p *)
+    else if negb md then O                                               (* !iwchars_is_digit(a[-1]): a = str *)
+    else if hd0 p5 =? 0 then k3                                          (* *p == 0: goto done, a after the mantissa *)
+    else k5                                                              (* e = 0, a = p (after the 'e' and the sign) *)
+  else if md then k3 else O.                                             (* p > str && !iwchars_is_digit(p[-1]): a = str *)
+
 Section Parse.
-  (* iwstrtod on the text at p: (bits of the double, bytes consumed, errno == ERANGE afterwards) *)
+  (* iwstrtod on the text at p: (bits of the double, bytes consumed [not used: strtod_end decides], errno == ERANGE afterwards) *)
   Variable ora : list Z -> Z * nat * bool.
 
   (* the '.', '-', '0'..'9' case; p at the first character *)
@@ -204,7 +235,8 @@ Section Parse.
     let pe := skipn k p in
     let c := hd0 pe in
     if big || (c =? 46) || (c =? 101) || (c =? 69) || (c =? 45) || (c =? 43) then
-      let '(bits, kf, erf) := ora p in
+      let '(bits, _, erf) := ora p in
+      let kf := strtod_end p in                              (* pe of iwstrtod: computed by the model, not taken from the oracle *)
       if Nat.eqb kf 0 || erf then Err E_JSON else Ok (Some (JF64 bits), skipn kf p)
     else Ok (Some (JI64 v), pe).
 
